@@ -13,7 +13,7 @@ WRITE_WIDTH = {"write_two": 2, "write_one": 1, "write_year": 4}
 def run(chk, tier):
     P = Prog("default")
     chk.configs.add("default")
-    for r in (r_numeric, r_setters, r_fixed, r_names, r_flow, r_whitespace, r_sign_arms):
+    for r in (r_numeric, r_setters, r_fixed, r_names, r_flow, r_whitespace, r_sign_arms, r_own_ranges):
         chk.guarded(r, P, tier)
     chk.guarded(c12.r_numeric_writers, P, tier)
     chk.assume("the round trip itself (for any value), white-space and letter-case perturbations are NOT decided; only that reader and writer agree item by item on width, sign and field")
@@ -173,3 +173,17 @@ def r_sign_arms(chk, P, tier):
         raise AnchorLost("parse_internal: %d signed scan::number calls" % len(seen))
     for k, (lo, hi) in sorted(seen.items(), key=lambda kv: str(kv[0])):
         chk.expect(lo == 1 and hi == (1 << 64) - 1, "number after sign @%s" % (k[1] if isinstance(k, tuple) else k), "scan::number after an explicit sign is bounded by (%s, %s), expected (1, usize::MAX) in both sign arms" % (lo, hi), loc=P.loc(fn, k[1] if isinstance(k, tuple) else None))
+
+
+def r_own_ranges(chk, P, tier):
+    """range decisions on scanned values are made by the Parsed setters (checked in C14) and by the one bound the RFC gives; a reader that rejects a
+    scanned value on its own narrows the accepted language (and breaks the round trip for values the writer can produce)"""
+    from fmt_tables import own_value_rejections
+    chk.rule("ERR.own_ranges", "the readers reject a scanned VALUE on their own only where listed (strict RFC 3339: offset beyond 23:59 -> OUT_OF_RANGE); every other range decision is a Parsed setter's", floor=1)
+    allowed = {}
+    for fn in ('format::parse::parse_internal',):
+        got = own_value_rejections(P, fn)
+        extra = got - allowed.get(fn, set())
+        missing = allowed.get(fn, set()) - got
+        chk.expect(not extra and not missing, fn.split("::")[-1], "%s rejects scanned values on its own: %s (allowed: %s)%s" % (fn, sorted(extra), sorted(allowed.get(fn, set())),
+                   "; expected rejection missing: %s" % sorted(missing) if missing else ""), loc=P.loc(fn))
